@@ -43,9 +43,113 @@ def selfcheck(src, per_regex=300, modes=('match', 'fullmatch', 'search')):
     return total, bad, problems
 
 
+def _random_member(lang, rnd, maxlen=14):
+    """a random accepted string of a marker-free language (walk over co-accessible states), or None"""
+    co = rx._coacc(lang)
+    if 0 not in co:
+        return None
+    groups = lang._groups_with()
+    q, out = 0, []
+    for _ in range(maxlen):
+        if lang.acc[q] and rnd.random() < 0.25:
+            break
+        nxt = [(r, mem) for r, mem in groups if lang.trans[q][r] in co]
+        if not nxt:
+            break
+        r, mem = rnd.choice(nxt)
+        s = rnd.choice(mem) if rnd.random() < 0.5 else r
+        out.append(s)
+        q = lang.trans[q][s]
+    # finish along a shortest path to acceptance
+    guard = 0
+    while not lang.acc[q] and guard < 200:
+        guard += 1
+        best = None
+        for r, _mem in groups:
+            t = lang.trans[q][r]
+            if t in co and (best is None or lang.acc[t]):
+                best = r
+                if lang.acc[t]:
+                    break
+        if best is None:
+            return None
+        out.append(best)
+        q = lang.trans[q][best]
+    if not lang.acc[q]:
+        return None
+    return out
+
+
+def selfcheck_captures(src, per_regex=120, only=None):
+    """the parse CPython's backtracking chooses must be a member of the (priority-pruned) marked reader
+    language the capture-agreement rules quantify over -- otherwise 'every parse in Rm agrees with the
+    writer' would say nothing about the parse the library actually gets."""
+    import itertools
+    rnd = random.Random(4711)
+    total = bad = skipped = 0
+    problems = []
+    for r in src.regexes():
+        pat, fl = r['pattern'], r['flags']
+        if pat is None:
+            continue
+        if only is not None and (r['module'], r['binding']) not in only:
+            continue
+        cre = re.compile(pat, fl)
+        if cre.groups == 0:
+            continue
+        kind = 'bytes' if isinstance(pat, bytes) else 'str'
+        A = rx.alphabet(kind)
+        for g in range(1, cre.groups + 1):
+            for mode in ('match', 'fullmatch'):
+                try:
+                    Rm, Re = rx.marked_reader(pat, fl, mode, [g])
+                except core.AnalysisError:
+                    skipped += 1
+                    continue
+                nA = A.n
+                for _ in range(per_regex):
+                    syms = _random_member(Re, rnd)
+                    if syms is None:
+                        break
+                    chars = [A.syms[i] for i in syms]
+                    s = ''.join(chars) if kind == 'str' else b''.join(chars)
+                    m = getattr(cre, mode)(s)
+                    total += 1
+                    if m is None:
+                        bad += 1
+                        if len(problems) < 10:
+                            problems.append('%s:%s %s(%r): dfa accepts, re does not' % (r['module'], r['binding'], mode, s))
+                        continue
+                    a, b = m.span(g)
+                    seq = []
+                    for i, sy in enumerate(syms):
+                        if i == a:
+                            seq.append(nA)
+                        if i == b:
+                            seq.append(nA + 1)
+                        seq.append(sy)
+                    if a == len(syms):
+                        seq.append(nA)
+                    if b == len(syms):
+                        seq.append(nA + 1)
+                    q = 0
+                    for sy in seq:
+                        q = Rm.trans[q][sy]
+                    if not Rm.acc[q]:
+                        bad += 1
+                        if len(problems) < 10:
+                            problems.append('%s:%s %s(%r) group %d span %s: the parse chosen by re is not in the marked language'
+                                            % (r['module'], r['binding'], mode, s, g, (a, b)))
+    return total, bad, skipped, problems
+
+
 if __name__ == '__main__':
     t, b, p = selfcheck(core.Source(), int(sys.argv[1]) if len(sys.argv) > 1 else 300)
     print(t, 'checks', b, 'disagreements')
     for x in p:
         print(' ', x)
-    sys.exit(1 if b or p else 0)
+    t2, b2, sk, p2 = selfcheck_captures(core.Source())
+    print(t2, 'capture checks', b2, 'disagreements', sk, 'group/mode combinations not analysable')
+    for x in p2:
+        print(' ', x)
+    sys.exit(1 if b or p or b2 else 0)
